@@ -11,11 +11,11 @@ CHECKS = {
     level=TV, design="2/C07", engine="tvsmt",
     technique="SMT translation validation: real simplify() run on generated sums, input/output encoded as polynomials over symbolic tensor entries in a finite orbital model, z3 decides value equality for all entries and target assignments; sat models replayed exactly",
     text="Each run of the real simplify() on a generated sum is validated by z3: value(out)=value(in) for every tensor valuation with the declared symmetries and every target assignment of a 3o3v/2o2v (spin: 2o2v x ab) model; term count, targets, assumptions and merging of alpha-equivalent pairs are direct checks on the concrete output.",
-    note="Bounded: expression shapes come from a seeded generator (<=9 terms, <=3 tensors/term, <=5 contracted, <=4 targets), orbital model <=3o3v. Trusted: sympy, z3, the IR reader and the harness' symmetry canonicalisation; sat models are replayed on the sympy trees before reporting."),
+    note="Bounded: expression shapes come from a seeded generator (plain, Kronecker deltas on contracted indices, general indices, exponents, repeated targets, spin, symbolic denominators, identical tensors repeated in cycles / rings; <=9 terms, <=3 tensors/term, <=5 contracted, <=4 targets), orbital model <=3o3v. Trusted: sympy, z3, the IR reader and the harness' symmetry canonicalisation; sat models are replayed on the sympy trees before reporting."),
  "C08": dict(
     level=TV, design="2/C08", engine="tvsmt",
     technique="CrossHair symbolic execution of order_substitutions / Container.permute (regenerated from source) / get_lowest_avail_indices / split_idx_string over all small map shapes + z3 translation validation of substitute_contracted, substitute_with_generic, permute, ordered subs on generated terms",
-    text="CrossHair confirms, over all index maps with <=3 entries on 5 ids (thorough: 4 on 6) and all sequences of <=3 transpositions, that the ordered substitution list equals the simultaneous map and that permute composes transpositions; z3 validates value preservation of each renaming run; lowest-name / freshness / identity conjuncts are direct comparisons.",
+    text="CrossHair confirms, over all index maps with <=3 entries on 5 ids (thorough: 4 on 6) and all sequences of <=3 transpositions, that the ordered substitution list equals the simultaneous map and that permute composes transpositions, and that get_lowest_avail_indices returns the lowest unused names for n <= 17 with up to 2 (3) used base / numbered names; z3 validates value preservation of each renaming run; lowest-name / freshness / identity conjuncts are direct comparisons.",
     note="Bounded map sizes and id ranges (stated in evidence); CrossHair stubs: indices as ints, `is`->`==`, temporary index = fresh negative int. Registry history limited to the checking process (histories: C19)."),
  "C09": dict(
     level=TV, design="2/C09", engine="tvsmt",
@@ -29,14 +29,14 @@ CHECKS = {
     note="Bounded: string shapes enumerated (not solver variables), model <=3o3v, spin-labelled operators not explored (documented refusal). Trusted: sympy's construction of NO objects, z3, vlib/detref.py (independent of adcgen's Wick code). sat models are replayed on concrete bit strings."),
  "C02": dict(
     level=TV, design="2/C02", engine="detref",
-    technique="z3 polynomial-identity check of each derived ground-state expression (energy, MP amplitude, RE residual, 1-/2-particle expectation value) against explicit RSPT on occupation bit strings with symbolic integrals, orbital energies and lower-order amplitudes; CrossHair on gen_term_orders",
-    text="Each expression returned by the real GroundState API is shown equal, for all integrals / orbital energies / lower-order amplitudes and all index assignments of a 2o2v (thorough: up to 3o3v) model, to the quantity computed by explicit determinant-space RSPT; orders <=2 quick, <=3 (energy 4) thorough; mp and re; with/without first-order singles.",
+    technique="z3 polynomial-identity check of each derived ground-state expression (energy, MP amplitude, RE residual, 1-/2-particle expectation value) against explicit RSPT on occupation bit strings with symbolic integrals, orbital energies and lower-order amplitudes; z3 identity of the norm-factor order expansion with the series of 1/(1+x) obtained from c(1+x)=1; CrossHair on gen_term_orders",
+    text="Each expression returned by the real GroundState API is shown equal, for all integrals / orbital energies / lower-order amplitudes and all index assignments of a 2o2v (thorough: up to 3o3v) model, to the quantity computed by explicit determinant-space RSPT; orders <=3 in 2o2v quick; up to 3o3v, energy 4 and expectation value 4 thorough; mp and re; with/without first-order singles. The order expansion returned by expand_norm_factor is shown by z3 to be the lambda^n coefficient of 1/(1+x) for all overlap values (orders <=6/8/9 for min_order 1/2/3; thorough 8/11/12).",
     note="Induction over the order: lower-order wavefunctions are free amplitude unknowns in adcgen's documented convention. Canonical orbitals for MP amplitudes; inverse orbital-energy forms are shared free unknowns (sound). Quadruples (need 4o4v) outside."),
  "C04": dict(
     level=TV, design="2/C04", engine="tvsmt",
-    technique="z3 polynomial-identity check: the expression returned by the real overlap_isr is identically the antisymmetrised delta product (order 0, equal classes) or identically zero (all other cases) for all ground-state amplitude values and index assignments; overlap_precursor(I,J) vs (J,I) by z3",
-    text="For the five ADC variants, the two lowest classes, all class pairs and orders <=2 (thorough <=3, mp and re, with/without singles) z3 decides orthonormality of the derived intermediate states for all amplitude values in models that host both index tuples.",
-    note="Bounded orders/classes/models (stated in evidence). Amplitudes are free unknowns, bra amplitudes independent (identified for the precursor-overlap symmetry)."),
+    technique="z3 polynomial-identity check: the expression returned by the real overlap_isr is identically the antisymmetrised delta product (order 0, equal classes) or identically zero (all other cases) for all ground-state amplitude values and index assignments; overlap_precursor(I,J) vs (J,I) by z3; the real s_root with stubbed overlap blocks vs the matrix power series of S^(-1/2) by z3",
+    text="For the five ADC variants, the two lowest classes, all class pairs and orders <=2 (thorough <=3, order 4 for h/p/hh/pp), mp and re, with/without first-order singles, and for the triples class of pp/ip/ea against the lowest and doubles class (orders 0-1), z3 decides orthonormality of the derived intermediate states for all amplitude values in models that host both index tuples. s_root is executed with overlap_precursor stubbed by free block tensors and shown equal to the lambda^n coefficient of (1+sum S^(k))^(-1/2) as a matrix series over restricted composite indices (orders 2-6, thorough 8; classes ph, h, hh, pp, phh, pph, pphh); expand_S_taylor vs the series from y*y*(1+x)=1.",
+    note="Bounded orders/classes/models (stated in evidence). Amplitudes are free unknowns, bra amplitudes independent (identified for the precursor-overlap symmetry). The s_root kernel check stubs overlap_precursor (environment stub, stated in evidence)."),
  "C03": dict(
     level=TV, design="2/C03", engine="detref",
     technique="z3 polynomial-identity check of each derived secular-matrix block / precursor block / MVP against the order-n coefficient of <I|H-E0|J> between intermediate states built explicitly on occupation bit strings (excitation operators on the normalised perturbed ground state, projection, S^-1/2 from X X S = 1); transpose relation between two real outputs; CrossHair on block_order",
@@ -55,17 +55,17 @@ CHECKS = {
  "C06": dict(
     level=TV, design="2/C06", engine="tvsmt",
     technique="z3: value of every constructed tensor object (sign + stored index order) equals the entry its raw index tuple denotes under an independent reading of the declared symmetry, for all entries and orbital assignments of a typed model; CrossHair symbolic execution of _need_bra_ket_swap / sort_idx_canonical / preferred_and_killable (regenerated from source) over symbolic index attributes",
-    text="All pairs (rank 1|1) and sampled tuples (ranks 2|2, 2|1, 3|3) over a 16-index pool (occ/virt/general, spin none/alpha/beta, numbered names) x 3 tensor classes x bra-ket 0/+1/-1, all delta pairs, substitutions, and Expr assumptions (idempotence direct, value by z3). CrossHair confirms totality/antisymmetry of the bra-ket swap decision and the canonical sort order for symbolic spaces, spins and names.",
+    text="All pairs (rank 1|1) and sampled tuples (ranks 2|2, 2|1, 3|3; 4|2, 4|4 and thorough 5|1 over spinless names) over a 21-index pool (occ/virt/general, spin none/alpha/beta, numbered names) x 3 tensor classes x bra-ket 0/+1/-1, all delta pairs, substitutions, and Expr assumptions (idempotence direct, value by z3). CrossHair confirms totality/antisymmetry of the bra-ket swap decision and the canonical sort order for symbolic spaces, spins and names.",
     note="Oracle for 'declared symmetry' = vlib/model.canon_entry (independent). Bounded index pool and ranks; CrossHair stubs: duck-typed Index, hash(idx)=0. The bra-ket-antisymmetric diagonal (not listed by the property as a forced zero) is not demanded."),
  "C18": dict(
     level=TV, design="2/C18", engine="tvsmt",
     technique="z3 value equivalence of each expression with the expression re-imported from its printed LaTeX (symbolic tensor entries, all target assignments); tensor kinds and re-printed text compared directly; operator expressions structurally",
-    text="For generated expressions covering every printable object kind and for library results (energies, amplitudes, wavefunctions, precursor states, matrix blocks, densities, symbolic-denominator and real variants) the value conjunct of the round trip is decided by z3, kinds and text by direct comparison.",
+    text="For generated expressions covering every printable object kind (incl. tensors with only upper or only lower indices) and for library results (operator matrices Operators.operator(n_c, n_a), energies, amplitudes, wavefunctions, precursor states, matrix blocks, densities, symbolic-denominator and real variants) the value conjunct of the round trip is decided by z3, kinds and text by direct comparison.",
     note="Only the value conjunct is a solver verdict (kinds/text have no quantifier left). Default tensor-name configuration; bra-ket symmetries only through Expr assumptions (object-level flags are not printed)."),
  "C10": dict(
     level=TV, design="2/C10", engine="tvsmt",
     technique="SMT translation validation: every (permutation product, +-1) reported by the real Term.symmetry/Obj.symmetry is checked by z3 against the term with the composed permutation applied independently; the parts returned by exploit_perm_sym / sort.by_* / filter_tensor are re-assembled and compared with the input by z3 (symbolic tensor entries, all target assignments); filing keys recomputed directly",
-    text="Generated terms (1-3 tensors, denominators, exponents, spin) in the three index modes and per object; expressions symmetrised over random subgroups for exploit_perm_sym with all target-string / bra-ket / result-tensor options; five sorters and filter_tensor.",
+    text="Generated terms (1-3 tensors, denominators, exponents, spin) in the three index modes and per object; expressions symmetrised over random subgroups (generic terms and twin terms: two copies of one tensor with the targets distributed) for exploit_perm_sym with all target-string / bra-ket / result-tensor options; five sorters and filter_tensor.",
     note="Bounded generator and models (<=3o3v). Permutations are applied by sympy's simultaneous substitution of the composed map, not by adcgen's permute. Cases in which Term.symmetry does not finish within the per-case limit give no verdict (counted in evidence)."),
  "C14": dict(
     level=TV, design="2/C14", engine="tvsmt",
@@ -75,7 +75,7 @@ CHECKS = {
  "C13": dict(
     level=TV, design="2/C13", engine="tvsmt",
     technique="SMT translation validation of the orbital-energy fraction algebra: input and actual output of each real operation encoded over symbolic orbital energies and tensor entries; two-stage decision (free inverse-bracket unknowns, then denominators cleared per outer monomial) by z3",
-    text="split/rebuild, canonicalize_sign, permute_num, cancel_orb_energy_frac, factor_eri_parts, factor_denom, symbolic<->explicit denominators (both directions), diagonalize_fock (diagonal Fock model), block_diagonalize_fock (block-diagonal model) on generated terms with 1-3 brackets (powers <=2) and rational numerators.",
+    text="split/rebuild, canonicalize_sign, permute_num, cancel_orb_energy_frac, factor_eri_parts, factor_denom, symbolic<->explicit denominators (both directions), diagonalize_fock (diagonal Fock model; incl. chains of Fock elements with intersecting indices), block_diagonalize_fock (block-diagonal model) on generated terms with 1-3 brackets (powers <=2) and rational numerators incl. weighted combinations of the brackets.",
     note="Models <=2o2v; brackets of >=2 energies; documented refusals give no verdict. Stage 2 assumes non-vanishing brackets."),
  "C16": dict(
     level=TV, design="2/C16", engine="tvsmt",
@@ -85,27 +85,27 @@ CHECKS = {
  "C17": dict(
     level=TV, design="2/C17", engine="tvsmt",
     technique="the text emitted by the real generate_code (einsum and libtensor) is parsed and evaluated by an independent interpreter that returns polynomials in symbolic tensor entries (nested contractions, block names checked against index letters, prefactors, permutation operators applied to the target assignment); z3 decides equality with the expression's value for all entries and all target assignments in the requested order",
-    text="Generated expressions (single tensors, traces, outer products, nested contractions, symmetry partners) x 11 target-string shapes in random requested order x bra-ket 0/+1/-1 x (anti)symmetric result x both back ends x optimised/unoptimised x limits.",
+    text="Generated expressions (single tensors, traces, outer products, nested contractions, symmetry partners, second terms built from the same objects with re-wired contracted indices) x 11 target-string shapes in random requested order x bra-ket 0/+1/-1 x (anti)symmetric result x both back ends x optimised/unoptimised x limits.",
     note="Models <=2o2v; inputs with non-unique index names or ambiguous printed block names are skipped and counted; documented NotImplementedError refusals give no verdict (in this sympy version every sqrt prefactor is refused: the branch compares the exponent with the float 0.5)."),
  "C12": dict(
     level=TV, design="2/C12", engine="detref",
-    technique="z3 identity check of every registered intermediate's expanded definition (once and fully expanded; default, permuted and numbered index tuples) against explicit RSPT amplitudes / densities / RE residuals computed on occupation bit strings, against the independently derived residuals, and against its own lower-level expansion; declared tensor symmetries checked by z3 on the expanded expression",
+    technique="z3 identity check of every registered intermediate's expanded definition (once and fully expanded; default, permuted, shifted and numbered index tuples) against explicit RSPT amplitudes / densities / RE residuals computed on occupation bit strings, against the independently derived residuals, and against its own lower-level expansion; declared tensor symmetries checked by z3 on the expanded expression",
     text="t2_1, t1_2, t2_2, t3_2, t1_3, t2_3, p0_2_oo/vv, p0_3_oo/ov/vv, the three RE residuals, t2eri_1..7, t2eri_A/B, t2sq in models max(2,#occ) x max(2,#virt) (thorough: also 3o3v); stage 2 (cleared denominators) decides the fully expanded forms whose denominators adcgen multiplies out.",
-    note="Real orbital basis. Quadruples (t4_2, its contribution to t2_3) vanish below 4o4v and are outside (t4_2's symmetry in 4o4v in the thorough tier). t2eri_1..7 / t2sq: only expansion consistency and declared symmetry (no independent oracle for their naming). Spin blocks: C15."),
+    note="Real orbital basis. Quadruples contributions vanish below 4o4v: t2_3, t1_3, t2_2, t3_2 (thorough: t4_2, fully expanded t2_3) are additionally compared in 4o4v on a bounded number of target assignments (4 quick / 24 thorough, all-different orbitals first), not on all assignments of that model. t2eri_1..7 / t2sq: only expansion consistency and declared symmetry (no independent oracle for their naming). Spin blocks: C15."),
  "C11": dict(
     level=TV, design="2/C11", engine="tvsmt",
     technique="SMT translation validation of expand_intermediates / factor_intermediates / reduce_expr under the valuation in which every registered intermediate tensor takes the value of its fully expanded registered definition (evaluated from expand_itmd); two-stage z3 decision over integrals, orbital energies, free tensors and target assignments",
-    text="Products of an intermediate tensor with free tensors (any subset of indices contracted, optional Fock factor and second intermediate) and library results (E(2), E(3), second-order density, ip h/h and pp ph/ph second-order blocks, real and Fock-diagonalised); all requested subsets / types / max_order for factorisation; fully vs once expanded.",
-    note="Model 2o2v; second-order intermediates (third order and quadruples outside); cases in which the library does not finish within the per-case limit give no verdict (counted)."),
+    text="Products of an intermediate tensor (second- and third-order amplitudes / densities, composite intermediates) with free tensors (any subset of indices contracted, optional Fock factor, second intermediate or second copy of the same intermediate), long intermediates times an ERI with rescaled terms (mixed prefactors) for factor_intermediates, and library results (E(2), E(3), second-order density, ip h/h and pp ph/ph second-order blocks, real and Fock-diagonalised); all requested subsets / types / max_order for factorisation; fully vs once expanded.",
+    note="Model 2o2v; quadruples outside; cases in which the library does not finish within the per-case limit give no verdict (counted)."),
  "C15": dict(
     level=TV, design="2/C15", engine="tvsmt",
-    technique="SMT translation validation of integrate_spin / transform_to_spatial_orbitals (expand_eri on/off, restricted) in a spatial x {alpha,beta} orbital model: the spin-orbital input evaluated at the requested target spins and the spin-labelled output share the same unknowns (Coulomb integrals with 8-fold symmetry defining <pq||rs>, spin-conserving amplitudes); blocks not reported by allowed_spin_blocks are shown identically zero by z3",
-    text="Generated spin-orbital expressions (V, t amplitudes, ADC vectors, unknown tensors, deltas) with random target order and spins; restricted variant on integral / symbolic-denominator expressions; expression-level and per-intermediate allowed spin blocks.",
-    note="Models <=2o2v spatial x spin. restricted=True only for amplitude-free expressions (no single-valued reading of 'alpha and beta amplitudes coincide' after renaming). allowed_spin_blocks only for closed expressions (documented RuntimeError otherwise)."),
+    technique="CrossHair symbolic execution of _has_valid_combination (as it is) + SMT translation validation of integrate_spin / transform_to_spatial_orbitals (expand_eri on/off, restricted) in a spatial x {alpha,beta} orbital model: the spin-orbital input evaluated at the requested target spins and the spin-labelled output share the same unknowns (Coulomb integrals with 8-fold symmetry defining <pq||rs>, spin-conserving amplitudes); blocks not reported by allowed_spin_blocks are shown identically zero by z3",
+    text="Generated spin-orbital expressions (V, t amplitudes, ADC vectors, unknown tensors, deltas) with random target order and spins; restricted variant on integral / symbolic-denominator expressions and, in the closed-shell model of the property, on expressions that keep tensor symbols (known finding); expression-level (random products and the directed ladder family) and per-intermediate allowed spin blocks; CrossHair confirms the back-tracking search over spin maps for three tensors with two candidate maps each (three topologies).",
+    note="Models <=2o2v spatial x spin. Known finding C15-restricted-merged-blocks: restricted=True on expressions that keep tensor symbols merges spin blocks (recorded in known_findings.json, not repaired). allowed_spin_blocks only for closed expressions (documented RuntimeError otherwise)."),
  "C19": dict(
     level=TV, design="2/C19", engine="tvsmt",
-    technique="results of one request obtained in fresh subprocesses under different PYTHONHASHSEEDs, seeded API histories and an alternative tensor-name configuration are shipped as IR and compared with the pristine result by z3 (value equality for all tensor entries / target assignments); CrossHair inductive step of the index registry (freshness of generic names for histories of any length); text after substitute_contracted, index-set disjointness and object identity compared directly",
-    text="8 (thorough 13) requests x 4 (16) hash seeds x 3 (11) histories of 4-34 calls + 2 runs with every tensor name changed; registry step confirmed from every pre-state of a two-letter cell.",
+    technique="results of one request obtained in fresh subprocesses under different PYTHONHASHSEEDs, seeded API histories and an alternative tensor-name configuration are shipped as IR and compared with the pristine result by z3 (value equality for all tensor entries / target assignments); CrossHair inductive steps of the index registry (a generic request, and an explicit request of a symbolically chosen name followed by a generic request, from an arbitrary pre-state satisfying the invariant: freshness of generic names for histories of any length); text after substitute_contracted, index-set disjointness and object identity compared directly",
+    text="8 (thorough 13) requests x 4 (16) hash seeds x 3 (11) histories of 4-34 calls + 2 runs with every tensor name changed; registry steps confirmed from every pre-state of a two-letter cell; repeated psi / norm_factor / expand_itmd requests share no contracted index.",
     note="Hash seeds and histories are a bounded sample, not solver variables (stated in evidence). Known finding C19-text-history: the text after substitute_contracted depends on the history (same value); recorded in known_findings.json, not repaired."),
 }
 NA_REASON = "check not built yet in this round (planned, see DESIGN.md section 2)"
